@@ -11,6 +11,7 @@ import (
 	"verifharness/internal/core"
 	"verifharness/internal/prng"
 	"verifharness/internal/refconv"
+	"verifharness/internal/reg"
 )
 
 // C14 — helpers that interpret UE-supplied contents never panic or hang.
@@ -306,6 +307,19 @@ func c14Grammar(r *prng.Rand, t *c14Target, i int) []byte {
 		case 1:
 			for j := range b {
 				b[j] = c14Alphabet[r.Intn(len(c14Alphabet))]
+			}
+			if len(reg.DictStrings) > 0 && r.Chance(1, 3) {
+				// a string literal of the tree (prefixes such as "imsi-", "nai-", unit names, formats)
+				// at the front, in the middle or as the whole input
+				s := reg.DictStrings[r.Intn(len(reg.DictStrings))]
+				switch r.Intn(3) {
+				case 0:
+					b = append([]byte(s), b...)
+				case 1:
+					b = append(b[:len(b)/2:len(b)/2], append([]byte(s), b[len(b)/2:]...)...)
+				default:
+					b = []byte(s)
+				}
 			}
 		case 2:
 			r.Fill(b)
